@@ -47,8 +47,16 @@ def gen(rng, ctx):
         if neg == "positional_bb":
             nl["bbdefs"]["ff"] = N.DEFAULT_BBS["ff"]
     text = N.render(rng, nl, layout=rng.choice(["free", "free", "writer"]), comments=rng.choice([0.0, 0.05, 0.15]))
+    decoy = None
+    if neg is None and rng.random() < 0.12:
+        # other modules in the same text: the named one must be parsed (with infer and an unknown name: the first one)
+        d = N.gen_netlist(rng, "full", max_stmts=4, max_inputs=3, nbb=0)
+        d["name"] = rng.choice(["decoy_a", "zz_other", "Top_2x"])
+        dt = N.render(rng, d, layout="writer")
+        decoy = rng.choice(["after", "before"])
+        text = text + "\n" + dt if decoy == "after" else dt + "\n" + text
     nl.pop("_stats", None)
-    return {"nl": nl, "text": text, "neg": neg, "stats": stats, "dup_parity": dup, "name_mode": rng.choice(["exact"] * 8 + ["infer", "wrong"])}
+    return {"nl": nl, "text": text, "neg": neg, "stats": stats, "dup_parity": dup, "name_mode": "exact" if decoy == "before" else rng.choice(["exact"] * 8 + ["infer", "wrong"]), "decoy": decoy}
 
 
 def check(case, ctx):
@@ -77,6 +85,8 @@ def check(case, ctx):
         else:
             ctx.count(f"neg_exc:{type(c).__name__}")
         return
+    if case.get("decoy"):
+        ctx.count("decoy_module_" + case["decoy"])
     if "//" in text:
         ctx.count("line_comments")
     if "/*" in text:
@@ -185,6 +195,6 @@ def gates(counters, table, tier):
     for op in ("and", "or", "xor", "xnor", "not"):
         if counters.get(f"expr:{op}", 0) < 50:
             out.append(f"operator {op} generated {counters.get(f'expr:{op}', 0)} times")
-    need = ["infer_module_name", "wrong_module_name", "expr:tern", "expr:repeated_subexpr", "multi_instance_statement", "pin:unconnected", "pin:omitted", "pin:net", "line_comments", "block_comments", "escaped_names", "lookalike_names"] + [f"neg:{n}" for n in NEG]
+    need = ["decoy_module_after", "decoy_module_before", "infer_module_name", "wrong_module_name", "expr:tern", "expr:repeated_subexpr", "multi_instance_statement", "pin:unconnected", "pin:omitted", "pin:net", "line_comments", "block_comments", "escaped_names", "lookalike_names"] + [f"neg:{n}" for n in NEG]
     out += [f"{k} seen {counters.get(k, 0)} times" for k in need if counters.get(k, 0) < 3]
     return out
